@@ -143,8 +143,12 @@ def gen_spec(rng, idx, nonlinear=None, exact_init=False, big=False):
                 o = rng.choice(snames)
                 u = rng.choice(inputs)
                 terms.append((dy(rng, -0.5, 0.5) * nj / nomof[o], [o, u]))
-        if len(terms) == 1:
-            terms.append((dy(rng, -3, 3) * nj, []))
+        known = set(inputs) | {p["n"] for p in params}
+        if not any(f not in known for _c, fs in terms[1:] for f in fs):
+            # `a = constant/known expression` would be eliminated by pymoca
+            # (eliminate_constant_assignments): keep the variable alive with a state term
+            o = rng.choice(snames)
+            terms.append((dy(rng, -1, 1) * nj / nomof[o], [o]))
         eqs.append(dict(kind="alg", of=a["n"], terms=terms, form=rng.choice(["explicit", "explicit", "implicit"])))
     # initial equations
     init_eqs = []
